@@ -756,14 +756,26 @@ def _composite_keystone_aperture(x, y, center_circle_diameter,
             rr = arr[:, 0]
             tt = arr[:, 1]
             xx, yy = polar_to_cart(rr, tt)
-            minx = min(xx)
-            maxx = max(xx)
-            miny = min(yy)
-            maxy = max(yy)
+            # the outer arc also reaches an extreme in x or y wherever it crosses
+            # a coordinate axis between lo and hi, which need not be at a corner
+            # or at the middle of the arc
+            k = math.ceil(lo / (np.pi/2))
+            axis_crossings = []
+            while k * (np.pi/2) < hi:
+                axis_crossings.append(k * (np.pi/2))
+                k += 1
+            bbx, bby = polar_to_cart(outer_radius, np.asarray(axis_crossings))
+            bbx = np.concatenate([xx, bbx])
+            bby = np.concatenate([yy, bby])
+            minx = min(bbx)
+            maxx = max(bbx)
+            miny = min(bby)
+            maxy = max(bby)
             rangex = maxx - minx
             rangey = maxy - miny
-            samples = math.ceil(max((rangex/dx, rangey/dx))/2)
-            samples = [math.ceil(v/dx/2) for v in (rangex, rangey)]
+            # +2: the window is placed with int(center/dx) around ceil(n/2), each of
+            # which can be one sample away from where the bounding box is centered
+            samples = [math.ceil(v/dx/2) + 2 for v in (rangex, rangey)]
             cx = minx + rangex/2
             cy = miny + rangey/2
 
